@@ -15,6 +15,9 @@ structure St where
   addrs : List (Nat × Addrs) := []   -- object ↦ address fields (for HostInfo.update)
   nextObj : Nat := 1000              -- objects created by hostInfoFromMap
   ctl : Nat := 0                     -- address the control connection was dialled at
+  prevIds : List Nat := []           -- host ids of the ring before the last evrefresh
+  specRep : List RHost := []         -- the property's reported list of the last evrefresh (local + valid peers)
+  tracked : List Nat := []           -- objects reported DOWN by an event and not connected since
 
 def init : St := {}
 
@@ -101,6 +104,19 @@ def addOrUpdateU (s : St) (h : RHost) : St × View × RHost :=
     ({ s with addrs := (e.obj, a') :: erase s.addrs e.obj, objs := s.objs.map (setAC a'.nodeAddr a'.conn · e.obj) }, v1.updateObj e.obj a'.nodeAddr a'.conn, setAC a'.nodeAddr a'.conn e e.obj)
   | _, _ => (s, v1, e)
 
+/-- the object a DOWN for address `a` marks down, if the address is known and the host not filtered -/
+def downedObj (s : St) (a : Nat) : List Nat :=
+  match s.v.ring.getHostByIP a with
+  | (some h, true) => if s.env.filter h then [] else [h.obj]
+  | _ => []
+
+def trackBatch (s : St) (b : List Ev) : St :=
+  if s.noStatus then s else
+  { s with tracked := (coalesce b).foldl (fun acc e => if e.2 == .down then acc ++ downedObj s e.1 else acc) s.tracked }
+
+def oracleStr (pfx : String) (l : List Nat) : String :=
+  if l.isEmpty then "ok" else pfx ++ ",".intercalate (l.map toString)
+
 def resStr : RefreshResult → String
   | .ok => "ok" | .errCannotFind => "err:cannot-find-host" | .errAlreadyExists => "err:host-already-exists"
 
@@ -117,7 +133,10 @@ def resStr : RefreshResult → String
   reset evc <pol> <flags> <ctl> <rows>          session with a control connection dialled at <ctl>; rows = local;peer;peer…
   evrefresh <rows> | evrefreshx <rows>          refreshRing with these system.local / system.peers contents
   evrefreshfail                                 refreshRing while the system queries fail
-  evdeb <n> <evs>                               eventDebouncer fed n copies of the first event then the rest: indexes delivered -/
+  evdeb <n> <evs>                               eventDebouncer fed n copies of the first event then the rest: number of frames delivered
+  evfollows | evfollowsx                        oracle "the view follows the report" on the state after the last evrefresh
+  evinpolicy | evinpolicyx                      oracle "every node new in the ring is in the policy's fallback lists"
+  evnotoffered                                  oracle "no object reported DOWN (and not connected since) is offered" -/
 def step (s : St) (ws : List String) : St × String :=
   let env := s.env
   match ws with
@@ -140,11 +159,20 @@ def step (s : St) (ws : List String) : St × String :=
   | ["evrm", id] => match s.v.ring.getHost (nat id) with
     | none => answer s s.v ""
     | some h => answer s (s.v.removeHost env h) ""
-  | ["evbatch", b] => answer s (s.v.handleBatch env (parseBatch b)) ""
-  | ["evbatchx", b] => answer s (s.v.handleBatch env (parseBatch b)) ""
+  | ["evbatch", b] => answer (trackBatch s (parseBatch b)) (s.v.handleBatch env (parseBatch b)) ""
+  | ["evbatchx", b] => answer (trackBatch s (parseBatch b)) (s.v.handleBatch env (parseBatch b)) ""
   | ["evup", a] => answer s (s.v.nodeUp env (nat a)) ""
-  | ["evdown", a] => answer s (s.v.nodeDown env (nat a)) ""
-  | ["evconn", id] => answer s (s.v.connected env (nat id)) ""
+  | ["evdown", a] => answer { s with tracked := s.tracked ++ downedObj s (nat a) } (s.v.nodeDown env (nat a)) ""
+  | ["evconn", id] =>
+    let s1 := match lookup s.v.pools (nat id) with
+      | some h => { s with tracked := s.tracked.filter (· != h.obj) }
+      | none => s
+    answer s1 (s.v.connected env (nat id)) ""
+  | ["evnotoffered"] => (s, if (s.v.offeredObjs s.tracked).isEmpty then "ok" else "offered")
+  | ["evfollows"] => (s, oracleStr "violated:" (s.v.followsViolations env s.prevIds s.specRep))
+  | ["evfollowsx"] => (s, oracleStr "violated:" (s.v.followsViolations env s.prevIds s.specRep))
+  | ["evinpolicy"] => (s, oracleStr "missing:" (sortBy (fun n : Nat => [n]) (s.v.newNotInPolicy s.prevIds)))
+  | ["evinpolicyx"] => (s, oracleStr "missing:" (sortBy (fun n : Nat => [n]) (s.v.newNotInPolicy s.prevIds)))
   | ["evfail", id] => answer s (s.v.connectFailed env (nat id)) ""
   | ["reset", "evc", pol, flags, ctl, rows] =>
     let s0 := setFlags {} pol flags
@@ -172,7 +200,7 @@ def step (s : St) (ws : List String) : St × String :=
       match parseRows rows with
       | [] => (s, "bad-op")
       | loc :: peers =>
-        let s1 := regRows s (loc :: peers)
+        let s1 := regRows { s with prevIds := s.v.ring.ids, specRep := getHostsSpec loc peers s.nextObj } (loc :: peers)
         match getHosts loc peers s.nextObj with
         | none => (s1, "crash:no-address")
         | some hs =>
